@@ -17,7 +17,6 @@ import (
 	"strings"
 	"sync"
 	"sync/atomic"
-	"time"
 
 	"sigs.k8s.io/yaml"
 
@@ -238,16 +237,7 @@ func c05FirstDiff(a, b string) string {
 	return fmt.Sprintf("at byte %d: %q vs %q", i, cut(a), cut(b))
 }
 
-var c05T = map[string]time.Duration{}
-var c05TN int
-
-func c05Tick(name string, t0 time.Time) { c05T[name] += time.Since(t0) }
-
 func (*c05) Execute(ci any) (res any) {
-	c05TN++
-	if c05TN%50 == 0 && os.Getenv("C05_TIMING") != "" {
-		fmt.Fprintln(os.Stderr, c05TN, c05T)
-	}
 	c := ci.(c05Case)
 	h := c05HostInit()
 	obs := c05Obs{}
@@ -296,12 +286,10 @@ func (*c05) Execute(ci any) (res any) {
 		}
 	}
 
-	t0 := time.Now()
 	// (i) sequential repetition
 	for i := 0; i < 20; i++ {
 		cmp("sequential", run(c.EnableDNS))
 	}
-	c05Tick("seq", t0); t0 = time.Now()
 	// (ii) concurrent renders
 	{
 		var wg sync.WaitGroup
@@ -324,7 +312,6 @@ func (*c05) Execute(ci any) (res any) {
 			cmp("concurrent", r)
 		}
 	}
-	c05Tick("conc", t0); t0 = time.Now()
 	// (iii) re-loaded from directory and from archive
 	{
 		tmp := h.tmp()
@@ -350,7 +337,6 @@ func (*c05) Execute(ci any) (res any) {
 		}
 		os.RemoveAll(tmp)
 	}
-	c05Tick("reload", t0); t0 = time.Now()
 	// (iv) environment, working directory, host files, DNS switch
 	{
 		envs := map[string]string{"HOME": "/nonexistent-" + h.tokenEnv, "C05_CANARY": h.tokenEnv, "HELM_NAMESPACE": h.tokenEnv, "HELM_DEBUG": "1",
@@ -401,7 +387,6 @@ func (*c05) Execute(ci any) (res any) {
 			obs.Regimes["dns-switch"] = "same"
 		}
 	}
-	c05Tick("host", t0); t0 = time.Now()
 	obs.HTTPHits = int(atomic.LoadInt64(&h.hits) - hits0)
 
 	// canary tokens and markers over every output produced
@@ -440,9 +425,7 @@ func (*c05) Execute(ci any) (res any) {
 	sort.Strings(obs.Markers)
 
 	// stage replay on the real functions: classification and the inputs of the model
-	c05Tick("scan", t0); t0 = time.Now()
 	c05Stages(files, c, &obs)
-	c05Tick("stages", t0)
 	return obs
 }
 
